@@ -1234,9 +1234,13 @@ def r_hilbert_call(ctx):
             obs.append(Ob("R-HILBERT-CALL", f["path"], "id = 1 + Σ_{1≤i<z} 4^i + position", ok_base, "returns %s" % aff_str(av)[:160], rel(f["loc"])))
             nc = absint.narrowing_casts(v)
             obs.append(Ob("R-HILBERT-CALL", f["path"], "the id is not truncated on the way out", not nc, ("narrowing cast(s): %s" % ", ".join("%s as %s" % (c[3], c[1]) for c in nc)) if nc else "no narrowing cast in the returned id", hc[0].loc()))
+        if not any(not [e for e in p.events if e.kind == "call" and "xy2h_discrete" in e.d["fn"]] for p in fa.paths):
+            obs.append(Ob("R-HILBERT-CALL", f["path"], "zoom 0 is answered without the curve (id 0)", False, "no path returns before the Hilbert call: zoom 0 would get id 1 + position", rel(f["loc"])))
     for f in dec:
         fa = ctx.fa(f)
         tid = V("param:tile_id")
+        if not any(p.exit == "ok" and not [e for e in p.events if e.kind == "call" and "h2xy_discrete" in e.d["fn"]] for p in fa.paths):
+            obs.append(Ob("R-HILBERT-CALL", f["path"], "id 0 is answered without the curve (0/0/0)", False, "no success path returns before the Hilbert call", rel(f["loc"])))
         for p in fa.paths:
             if p.exit != "ok":
                 continue
